@@ -5,7 +5,7 @@
    quotient and the dividend as remainder for a zero divisor — the values
    Mini.arith fixes for x / 0 and x % 0.  Generalises Builders/DivProof.v
    (okm_udiv_long_loop: full-width q and rret, non-zero divisor). *)
-From Coq Require Import NArith List Bool Arith Lia.
+From Coq Require Import ZArith Znumtheory NArith List Bool Arith Lia.
 From Mpc Require Import Builders.Emit Builders.EmitProof Builders.Sub Builders.Mux Builders.Div
      Builders.SubProof Builders.MuxProof Builders.DivProof
      Builders.StructProof Builders.StructAdder Builders.StructArith Builders.StructKs Builders.StructDiv.
@@ -197,6 +197,217 @@ Proof.
   intros e S. apply (HP e S). exact Lr.
 Qed.
 
+(* ---- destinations narrower than the operands: the low bits ----
+   (ssagen types a division by the left operand: "x / 5" with x : uint24 has a
+   24-wire result while the literal sits in a 32-bit container) *)
+Lemma okm_qbit_le tw i q :
+  okm false (if Nat.ltb i (length q)
+             then bind zero_wire (fun z => bind one_wire (fun o =>
+                    new_mux [tw] [z] [o] (firstn 1 (skipn i q))))
+             else ret tt)
+      (fun _ e => (i < length q)%nat -> valN e (firstn 1 (skipn i q)) = if e tw then 0 else 1).
+Proof.
+  destruct (Nat.ltb i (length q)) eqn:E.
+  - apply Nat.ltb_lt in E. pose proof (okm_qbit tw i q E) as K.
+    replace (Nat.ltb i (length q)) with true in K by (symmetry; apply Nat.ltb_lt; exact E).
+    eapply okm_weaken; [exact K|]. auto.
+  - apply Nat.ltb_ge in E. apply okm_ret. intros e H. lia.
+Qed.
+
+Lemma okp_next_r_le i (rret r1 : list wire) : (length rret <= length r1)%nat ->
+  okp false (if Nat.eqb i 0
+             then let k := Nat.min (length rret) (length r1) in
+                  bind (fresh_n (length r1 - k)) (fun fr => ret (firstn k rret ++ fr))
+             else fresh_n (length r1))
+      (fun nr => length nr = length r1 /\ (i = 0%nat -> firstn (length rret) nr = rret))
+      (fun _ _ => True).
+Proof.
+  intros L. destruct (Nat.eqb i 0) eqn:E.
+  - cbv zeta. replace (Nat.min (length rret) (length r1)) with (length rret) by lia.
+    rewrite firstn_all.
+    eapply okp_bind; [apply okp_fresh_n|]. intros fr Lf. cbv beta in Lf |- *.
+    apply okp_ret; auto. split; [rewrite app_length; lia|]. intros _.
+    rewrite firstn_app, firstn_all, Nat.sub_diag. cbn [firstn]. apply app_nil_r.
+  - apply Nat.eqb_neq in E. eapply okp_weaken; [apply okp_fresh_n | |]; cbv beta; auto.
+    intros a H. split; auto. intros; lia.
+Qed.
+
+Lemma mod_add_pow2 x y m k : (k <= m)%nat ->
+  (x + 2 ^ N.of_nat m * y) mod 2 ^ N.of_nat k = x mod 2 ^ N.of_nat k.
+Proof.
+  intros H. replace (N.of_nat m) with (N.of_nat k + N.of_nat (m - k)) by lia.
+  rewrite N.pow_add_r.
+  replace (x + 2 ^ N.of_nat k * 2 ^ N.of_nat (m - k) * y) with (x + (2 ^ N.of_nat (m - k) * y) * 2 ^ N.of_nat k) by ring.
+  apply N.mod_add. apply N.pow_nonzero. discriminate.
+Qed.
+
+Lemma okm_udiv_long_loop_le n : forall ra k i b q rret r,
+  (k + length ra = n)%nat -> i = (length ra - 1)%nat ->
+  length b = n -> (length q <= n)%nat -> (length rret <= n)%nat -> length r = n ->
+  okm false (udiv_long_loop ra i b q rret r)
+      (fun _ e =>
+         (valN e b <> 0 -> valN e r < valN e b) -> valN e r < 2 ^ N.of_nat k ->
+         let A := valN e r * 2 ^ N.of_nat (length ra) + valN e (rev ra) in
+         valN e (firstn (length ra) q) = dq A (valN e b) (length ra) mod 2 ^ N.of_nat (length q) /\
+         match ra with
+         | [] => valN e r = dr A (valN e b)
+         | _ :: _ => valN e rret = dr A (valN e b) mod 2 ^ N.of_nat (length rret)
+         end).
+Proof.
+  induction ra as [|ai ra IH]; intros k i b q rret r Hk Hi Lb Lq Lrr Lr.
+  - cbn [udiv_long_loop]. apply okm_ret. intros e Hb _. cbn [length rev firstn].
+    rewrite valN_nil. change (2 ^ N.of_nat 0) with 1. rewrite N.mul_1_r, N.add_0_r.
+    assert (Z0 : 0 mod 2 ^ N.of_nat (length q) = 0) by (apply N.mod_0_l, N.pow_nonzero; discriminate).
+    unfold dq, dr. destruct (N.eqb_spec (valN e b) 0) as [E|E].
+    + change (2 ^ N.of_nat 0 - 1) with 0. rewrite Z0. split; reflexivity.
+    + specialize (Hb E).
+      rewrite (N.div_small (valN e r) (valN e b)), (N.mod_small (valN e r) (valN e b)) by assumption.
+      rewrite Z0. auto.
+  - cbn [udiv_long_loop]. cbv zeta.
+    remember (ai :: removelast r) as r1 eqn:Er1. cbn [length] in *.
+    assert (Lr1 : length r1 = n).
+    { subst r1. cbn [length]. rewrite removelast_len. lia. }
+    eapply okm_bind_p; [apply okp_fresh_n | intros d0 Ld0; cbv beta in Ld0 |- *].
+    eapply okm_bind_p; [apply okp_new_subtractor_yao; lia | intros diff Ld; cbv beta in Ld |- *].
+    assert (Hne : diff <> []) by (intros ->; cbn in Ld; lia).
+    destruct (exists_last Hne) as (dl & tw & ->). clear Hne.
+    rewrite app_length in Ld. cbn [length] in Ld.
+    assert (Ldl : length dl = n) by lia.
+    replace (length (dl ++ [tw]) - 1)%nat with (length dl) by (rewrite app_length; cbn; lia).
+    rewrite skipn_app, skipn_all, Nat.sub_diag. cbn [skipn app].
+    rewrite firstn_app, firstn_all, Nat.sub_diag. cbn [firstn]. rewrite app_nil_r.
+    eapply okm_bind; [apply (okm_qbit_le tw i q) | intros u1; cbv beta].
+    eapply okm_bind_p; [apply okp_next_r_le; lia | intros nr [Lnr Hnr]; cbv beta].
+    eapply okm_bind; [apply okm_new_mux; lia | intros u2; cbv beta].
+    eapply okm_weaken.
+    { apply (IH (S k) (i - 1)%nat b q rret nr); try lia; assumption. }
+    cbv beta. intros _ e HI Hmux _ Hq Hsub _ Hb Hkk. cbv zeta.
+    set (B := valN e b) in *. set (R := valN e r) in *.
+    assert (Hpk : 2 ^ N.of_nat (S k) <= 2 ^ N.of_nat n) by (apply N.pow_le_mono_r; lia).
+    rewrite pow2_S in Hpk.
+    assert (HR1 : valN e r1 = N.b2n (e ai) + 2 * R).
+    { subst r1. rewrite valN_cons, valN_removelast, Lr. f_equal. f_equal.
+      apply N.mod_small. fold R.
+      eapply N.lt_le_trans; [exact Hkk|]. apply N.pow_le_mono_r; lia. }
+    pose proof (b2n_le1 (e ai)) as Hai.
+    assert (HB : B < 2 ^ N.of_nat n) by (unfold B; rewrite <- Lb; apply valN_lt).
+    assert (HDn : valN e dl < 2 ^ N.of_nat n) by (rewrite <- Ldl; apply valN_lt).
+    rewrite valN_app, valN_cons, valN_nil, Ldl in Hsub.
+    rewrite Ld0, Lr1 in Hsub. replace (n + 1)%nat with (S n) in Hsub by lia.
+    rewrite pow2_S in Hsub.
+    apply div_borrow_arith in Hsub; try lia.
+    set (m := length ra) in *.
+    set (M := 2 ^ N.of_nat m) in *.
+    assert (M1 : 1 <= M) by (unfold M; pose proof (pow2_pos m); lia).
+    set (L := valN e (rev ra)) in *.
+    assert (HL : L < M) by (unfold L, M, m; rewrite <- (rev_length ra); apply valN_lt).
+    assert (Hrev : valN e r1 * M + L = R * 2 ^ N.of_nat (S m) + valN e (rev (ai :: ra))).
+    { cbn [rev]. rewrite valN_app, valN_cons, valN_nil, rev_length, pow2_S, HR1.
+      fold m M L. ring. }
+    rewrite <- Hrev.
+    change (match q with [] => [] | a :: l => a :: firstn m l end) with (firstn (S m) q).
+    set (A1 := valN e r1 * M + L) in *.
+    (* the three outcomes of the step: quotient bit qb, new remainder NR *)
+    assert (Key : exists qb : N,
+              (if e tw then 0 else 1) = qb /\
+              (B <> 0 -> valN e nr < B) /\ valN e nr < 2 ^ N.of_nat (S k) /\
+              dq A1 B (S m) = dq (valN e nr * M + L) B m + M * qb /\
+              dq (valN e nr * M + L) B m < M /\
+              dr A1 B = dr (valN e nr * M + L) B).
+    { destruct Hsub as [[Ht Hlt] | [Ht Heq]]; rewrite Ht in *.
+      - assert (HNR : valN e nr = valN e r1) by exact Hmux.
+        assert (HB0 : B <> 0) by lia.
+        exists 0. rewrite HNR. unfold dq, dr.
+        replace (B =? 0) with false by (symmetry; apply N.eqb_neq; exact HB0).
+        split; [reflexivity|]. split; [intros _; exact Hlt|]. split; [rewrite pow2_S; lia|].
+        split; [fold A1; lia|]. split; [|reflexivity].
+        fold A1. apply N.div_lt_upper_bound; [exact HB0|]. unfold A1. nia.
+      - assert (HNR : valN e nr = valN e dl) by exact Hmux.
+        exists 1. rewrite HNR. unfold dq, dr.
+        destruct (N.eqb_spec B 0) as [HB0|HB0].
+        + assert (Ed : valN e dl = valN e r1) by lia. rewrite Ed. fold A1.
+          split; [reflexivity|]. split; [intros K; contradiction|]. split; [rewrite pow2_S; lia|].
+          split; [rewrite pow2_S; fold M; lia|]. split; [lia|reflexivity].
+        + destruct (div_step_final (valN e r1) B (valN e dl) 1 L M HB0 ltac:(lia)) as [D1 D2].
+          fold A1 in D1, D2.
+          split; [reflexivity|]. split; [intros _; specialize (Hb HB0); lia|].
+          split; [rewrite pow2_S; lia|].
+          split; [rewrite <- D1; lia|]. split; [|symmetry; exact D2].
+          apply N.div_lt_upper_bound; [exact HB0|]. specialize (Hb HB0). nia. }
+    destruct Key as (qb & Eqb & K1 & K2 & KQ & KB & KR).
+    destruct HI as [HQ HRm]; [exact K1|exact K2|].
+    fold M L in HQ, HRm. rewrite KQ, KR.
+    split.
+    + destruct (Nat.ltb m (length q)) eqn:Emq.
+      * apply Nat.ltb_lt in Emq.
+        rewrite firstn_S_split, valN_app, firstn_length.
+        replace (Nat.min m (length q)) with m by lia.
+        replace i with m in Hq by lia. rewrite (Hq Emq), Eqb, HQ. fold M.
+        assert (PM : 2 * M <= 2 ^ N.of_nat (length q)).
+        { unfold M. rewrite <- pow2_S. apply N.pow_le_mono_r; lia. }
+        assert (Qb : qb <= 1) by (rewrite <- Eqb; destruct (e tw); lia).
+        rewrite !N.mod_small by nia. reflexivity.
+      * apply Nat.ltb_ge in Emq. rewrite !firstn_all2 in * by lia.
+        rewrite HQ. unfold M. symmetry. apply mod_add_pow2. exact Emq.
+    + destruct ra as [|aj ra'].
+      * cbn [length] in *. assert (Hi0 : i = 0%nat) by lia.
+        rewrite <- (Hnr Hi0) at 1. rewrite valN_firstn. f_equal. exact HRm.
+      * exact HRm.
+Qed.
+
+Theorem okm_udivider_long_le a b q rret n :
+  n = Nat.max (length a) (length b) -> (1 <= n)%nat ->
+  (length q <= n)%nat -> (length rret <= n)%nat ->
+  okm false (udivider_long a b q rret)
+      (fun _ e => valN e q = dq (valN e a) (valN e b) n mod 2 ^ N.of_nat (length q) /\
+                  valN e rret = dr (valN e a) (valN e b) mod 2 ^ N.of_nat (length rret)).
+Proof.
+  intros En Hn Lq Lrr. unfold udivider_long.
+  eapply okm_bind_p; [apply okp_zero_pad|]. intros [a' b'] [Sa Sb]. cbn [fst snd] in *. cbv beta iota.
+  pose proof (pad_shape_len _ _ _ Sa) as La. pose proof (pad_shape_len _ _ _ Sb) as Lb.
+  assert (La' : length a' = n) by lia. assert (Lb' : length b' = n) by lia.
+  eapply okm_bind_p with (R := fun r : list wire => length r = n) (P := fun r e => valN e r = 0).
+  { replace (Nat.eqb (length a') 0) with false by (symmetry; apply Nat.eqb_neq; lia).
+    eapply okp_bind; [apply okp_of_okm, okm_zero|]. intros z _. cbv beta.
+    apply okp_ret; [rewrite repeat_length; exact La'|]. intros e Hz. apply valN_repeat0. exact Hz. }
+  intros r0 Lr0. cbv beta.
+  eapply okm_weaken.
+  { apply (okm_udiv_long_loop_le n (rev a') 0%nat (length a' - 1)%nat b' q rret r0);
+      rewrite ?rev_length; try lia; assumption. }
+  cbv beta. intros _ e HI Hr0 [Za Zb]. cbn [fst snd] in *. cbv zeta in HI.
+  rewrite rev_length, rev_involutive, Hr0, N.mul_0_l, N.add_0_l in HI.
+  rewrite (pad_val e a' a _ Sa Za), (pad_val e b' b _ Sb Zb), La' in HI.
+  destruct HI as [HQ HR]; [intros H; lia | cbn; lia |].
+  rewrite firstn_all2 in HQ by lia. split; [exact HQ|].
+  destruct (rev a') eqn:E; [|exact HR].
+  apply (f_equal (@length wire)) in E. rewrite rev_length in E. cbn in E. lia.
+Qed.
+
+Corollary okm_new_udivider_q_le a b q :
+  (1 <= Nat.max (length a) (length b))%nat -> (length q <= Nat.max (length a) (length b))%nat ->
+  okm false (new_udivider a b q [])
+      (fun _ e => valN e q = dq (valN e a) (valN e b) (Nat.max (length a) (length b))
+                             mod 2 ^ N.of_nat (length q)).
+Proof.
+  intros Hn Lq s W G. unfold new_udivider, bind, target_gmw. rewrite G.
+  destruct (okm_udivider_long_le a b q [] _ eq_refl Hn Lq ltac:(cbn; lia) s W G)
+    as (u & s' & E & W' & X & HP).
+  exists u, s'. split; [exact E|]. split; [exact W'|]. split; [exact X|].
+  intros e S. apply (HP e S).
+Qed.
+
+Corollary okm_new_udivider_r_le a b r :
+  (1 <= Nat.max (length a) (length b))%nat -> (length r <= Nat.max (length a) (length b))%nat ->
+  okm false (new_udivider a b [] r)
+      (fun _ e => valN e r = dr (valN e a) (valN e b) mod 2 ^ N.of_nat (length r)).
+Proof.
+  intros Hn Lr s W G. unfold new_udivider, bind, target_gmw. rewrite G.
+  destruct (okm_udivider_long_le a b [] r _ eq_refl Hn ltac:(cbn; lia) Lr s W G)
+    as (u & s' & E & W' & X & HP).
+  exists u, s'. split; [exact E|]. split; [exact W'|]. split; [exact X|].
+  intros e S. apply (HP e S).
+Qed.
+
 (* ---------------------------------------------------------------- signed *)
 (* NewIDivider = sign handling (prefix) followed by the unsigned division of
    the magnitudes and the conditional negation of the quotient (suffix) *)
@@ -259,25 +470,40 @@ Local Ltac ost L x h :=
 Local Ltac osm L x :=
   eapply okp_bind; [apply okp_of_okm, L; try (cbn [length]; lia) | intros x _; cbv beta].
 
-(* sign handling: a2 = |a|, b2 = |b| as n-bit patterns, neg4 = sign(a) xor sign(b) *)
-Lemma okp_idiv_prefix a b :
-  (1 <= length a)%nat -> length b = length a ->
-  okp false (idiv_prefix a b)
-      (fun p => let '(a2, b2, neg4, z0) := p in length a2 = length a /\ length b2 = length a)
-      (fun p e => let '(a2, b2, neg4, z0) := p in
-         let n := length a in
-         e z0 = false /\
-         valN e a2 = (if e (last a 0) then negN n (valN e a) else valN e a) /\
-         valN e b2 = (if e (last b 0) then negN n (valN e b) else valN e b) /\
-         e neg4 = xorb (e (last a 0)) (e (last b 0))).
+Lemma valN_last_testbit (e : env) : forall x : list wire, x <> [] ->
+  N.testbit (valN e x) (N.of_nat (length x - 1)) = e (last x 0).
 Proof.
-  intros Ha Lb. unfold idiv_prefix.
-  eapply okp_bind with (R := fun p => p = (a, b)) (P := fun _ _ => True).
-  { unfold zero_pad. rewrite Lb, Nat.eqb_refl. apply okp_ret; auto. }
-  intros p ->. cbv beta iota.
+  induction x as [|w x IH]; intros H; [congruence|].
+  destruct x as [|w' x'].
+  - cbn [length last]. rewrite valN_cons, valN_nil. cbn [Nat.sub N.of_nat].
+    rewrite N.mul_0_r, N.add_0_r. apply N.b2n_bit0.
+  - change (last (w :: w' :: x') 0) with (last (w' :: x') 0). rewrite <- IH by discriminate.
+    rewrite valN_cons, N.add_comm. cbn [length].
+    replace (S (S (length x')) - 1)%nat with (S (S (length x') - 1)) by lia.
+    rewrite Nat2N.inj_succ, N.testbit_succ_r. reflexivity.
+Qed.
+
+(* sign handling: a2 = |a|, b2 = |b| as n-bit patterns (n = the wider operand; the
+   narrower one is ZERO padded, so its sign bit reads 0), neg4 = sign(a) xor sign(b) *)
+Lemma okp_idiv_prefix a b n :
+  n = Nat.max (length a) (length b) -> (1 <= n)%nat ->
+  okp false (idiv_prefix a b)
+      (fun p => let '(a2, b2, neg4, z0) := p in length a2 = n /\ length b2 = n)
+      (fun p e => let '(a2, b2, neg4, z0) := p in
+         let sa := N.testbit (valN e a) (N.of_nat (n - 1)) in
+         let sb := N.testbit (valN e b) (N.of_nat (n - 1)) in
+         e z0 = false /\
+         valN e a2 = (if sa then negN n (valN e a) else valN e a) /\
+         valN e b2 = (if sb then negN n (valN e b) else valN e b) /\
+         e neg4 = xorb sa sb).
+Proof.
+  intros En Hn. unfold idiv_prefix.
+  eapply okp_bind; [apply okp_zero_pad|]. intros [a' b'] [Sa Sb]. cbn [fst snd] in *. cbv beta iota.
+  pose proof (pad_shape_len _ _ _ Sa) as La. pose proof (pad_shape_len _ _ _ Sb) as Lb.
+  assert (La' : length a' = n) by lia. assert (Lb' : length b' = n) by lia.
   osm okm_zero z0. cbv zeta.
-  rewrite (skipn_last (0 : wire) a), (skipn_last (0 : wire) b) by lia.
-  set (aw := last a (0 : wire)). set (bw := last b (0 : wire)).
+  rewrite (skipn_last (0 : wire) a'), (skipn_last (0 : wire) b') by lia.
+  set (aw := last a' (0 : wire)). set (bw := last b' (0 : wire)).
   osm okm_fresh neg1. osm okm_cc_inv u1.
   ost okp_fresh_n a10 La10. ost okp_new_subtractor_yao a1 La1.
   osm okm_fresh neg2. osm okm_new_mux_bits u2.
@@ -287,32 +513,39 @@ Proof.
   osm okm_fresh neg4. osm okm_new_mux_bits u5.
   ost okp_fresh_n b2 Lb2. osm okm_new_mux u6.
   apply okp_ret; [split; lia|].
-  intros e Hb2 _ Hneg4 _ Hb1 _ Hneg3 _ Ha2 _ Hneg2 _ Ha1 _ Hneg1 _ Hz0.
-  cbv zeta.
-  apply (zero_sub_val e z0 a a10) in Ha1; auto.
-  apply (zero_sub_val e z0 b b10) in Hb1; auto; try lia.
-  rewrite Lb in Hb1.
+  intros e Hb2 _ Hneg4 _ Hb1 _ Hneg3 _ Ha2 _ Hneg2 _ Ha1 _ Hneg1 _ Hz0 [Za Zb].
+  cbn [fst snd] in *. cbv zeta.
+  apply (zero_sub_val e z0 a' a10) in Ha1; auto.
+  apply (zero_sub_val e z0 b' b10) in Hb1; auto; try lia.
   cbn [map] in Hneg2, Hneg4. rewrite Hz0 in Hneg1. cbn in Hneg1.
   assert (E2 : e neg2 = e aw).
   { destruct (e aw); inversion Hneg2; congruence. }
   assert (E4 : e neg4 = xorb (e aw) (e bw)).
   { rewrite Hneg3, E2 in Hneg4. destruct (e bw); inversion Hneg4 as [HH]; rewrite HH;
       destruct (e aw); reflexivity. }
-  rewrite Ha1 in Ha2. rewrite Hb1 in Hb2. auto.
+  rewrite Ha1 in Ha2. rewrite Hb1 in Hb2.
+  assert (Na : a' <> []) by (intros ->; cbn in La'; lia).
+  assert (Nb : b' <> []) by (intros ->; cbn in Lb'; lia).
+  pose proof (valN_last_testbit e a' Na) as Ta. pose proof (valN_last_testbit e b' Nb) as Tb.
+  fold aw in Ta. fold bw in Tb.
+  rewrite (pad_val e a' a _ Sa Za) in *. rewrite (pad_val e b' b _ Sb Zb) in *.
+  rewrite La' in *. rewrite Lb' in *. rewrite Ta, Tb. auto.
 Qed.
 
 (* imod: NewIDivider(cc, a, b, nil, r) *)
 Theorem okm_new_idivider_r a b r :
-  (1 <= length a)%nat -> length b = length a -> length r = length a ->
+  (1 <= Nat.max (length a) (length b))%nat -> length r = Nat.max (length a) (length b) ->
   okm false (new_idivider a b [] r)
       (fun _ e =>
-         let n := length a in
-         let A := if e (last a 0) then negN n (valN e a) else valN e a in
-         let B := if e (last b 0) then negN n (valN e b) else valN e b in
+         let n := Nat.max (length a) (length b) in
+         let sa := N.testbit (valN e a) (N.of_nat (n - 1)) in
+         let sb := N.testbit (valN e b) (N.of_nat (n - 1)) in
+         let A := if sa then negN n (valN e a) else valN e a in
+         let B := if sb then negN n (valN e b) else valN e b in
          valN e r = dr A B).
 Proof.
-  intros Ha Lb Lr. eapply okm_ext; [intros s; apply idiv_split|].
-  eapply okm_bind_p; [apply okp_idiv_prefix; assumption|].
+  intros Hn Lr. eapply okm_ext; [intros s; apply idiv_split|].
+  eapply okm_bind_p; [apply (okp_idiv_prefix a b _ eq_refl Hn)|].
   intros [[[a2 b2] neg4] z0] [La2 Lb2]. cbv beta. unfold idiv_suffix. cbn [length Nat.eqb].
   eapply okm_weaken; [apply okm_new_udivider_r; lia|]. cbv beta.
   intros _ e H (Hz & HA & HB & HN). cbv zeta. rewrite H, HA, HB. reflexivity.
@@ -320,18 +553,18 @@ Qed.
 
 (* idiv: NewIDivider(cc, a, b, q, nil) *)
 Theorem okm_new_idivider_q a b q :
-  (1 <= length a)%nat -> length b = length a -> length q = length a ->
+  (1 <= Nat.max (length a) (length b))%nat -> length q = Nat.max (length a) (length b) ->
   okm false (new_idivider a b q [])
       (fun _ e =>
-         let n := length a in
-         let sa := e (last a 0) in
-         let sb := e (last b 0) in
+         let n := Nat.max (length a) (length b) in
+         let sa := N.testbit (valN e a) (N.of_nat (n - 1)) in
+         let sb := N.testbit (valN e b) (N.of_nat (n - 1)) in
          let A := if sa then negN n (valN e a) else valN e a in
          let B := if sb then negN n (valN e b) else valN e b in
          valN e q = if xorb sa sb then negN n (dq A B n) else dq A B n).
 Proof.
-  intros Ha Lb Lq. eapply okm_ext; [intros s; apply idiv_split|].
-  eapply okm_bind_p; [apply okp_idiv_prefix; assumption|].
+  intros Hn Lq. eapply okm_ext; [intros s; apply idiv_split|].
+  eapply okm_bind_p; [apply (okp_idiv_prefix a b _ eq_refl Hn)|].
   intros [[[a2 b2] neg4] z0] [La2 Lb2]. cbv beta. unfold idiv_suffix.
   replace (Nat.eqb (length q) 0) with false by (symmetry; apply Nat.eqb_neq; lia).
   eapply okm_bind_p; [apply okp_fresh_n|]. intros q0 Lq0. cbv beta in Lq0 |- *.
@@ -342,6 +575,84 @@ Proof.
   intros _ e Hq Hq1 _ Hdiv _ (Hz & HA & HB & HN). cbv zeta.
   apply (zero_sub_val e z0 q0 q10) in Hq1; auto; try lia.
   rewrite Lq0, Lq in Hq1. rewrite Hq1, HN in Hq. rewrite Hq, Hdiv, HA, HB, Lq0, Lq. reflexivity.
+Qed.
+
+(* ---- signed division into a destination narrower than the operands ---- *)
+Lemma dq_lt A B n : A < 2 ^ N.of_nat n -> dq A B n < 2 ^ N.of_nat n.
+Proof.
+  intros H. unfold dq. destruct (N.eqb_spec B 0) as [E|E].
+  - pose proof (pow2_pos n). lia.
+  - eapply N.le_lt_trans; [|exact H]. apply N.div_le_upper_bound; [exact E|]. nia.
+Qed.
+
+Lemma negN_mod n k x : (k <= n)%nat -> x <= 2 ^ N.of_nat n ->
+  negN k (x mod 2 ^ N.of_nat k) = negN n x mod 2 ^ N.of_nat k.
+Proof.
+  intros Hk Hx. unfold negN.
+  assert (Pk : 2 ^ N.of_nat k <> 0) by (apply N.pow_nonzero; discriminate).
+  assert (Pn : 2 ^ N.of_nat n <> 0) by (apply N.pow_nonzero; discriminate).
+  pose proof (N.mod_lt x _ Pk) as Hy.
+  assert (En : 2 ^ N.of_nat n = 2 ^ N.of_nat (n - k) * 2 ^ N.of_nat k).
+  { rewrite <- N.pow_add_r. f_equal. lia. }
+  apply N2Z.inj.
+  rewrite !N2Z.inj_mod, !N2Z.inj_sub by lia. rewrite N2Z.inj_mod.
+  set (K := Z.of_N (2 ^ N.of_nat k)). set (M := Z.of_N (2 ^ N.of_nat n)). set (X := Z.of_N x).
+  assert (EM : M = (Z.of_N (2 ^ N.of_nat (n - k)) * K)%Z) by (unfold M, K; rewrite En, N2Z.inj_mul; reflexivity).
+  assert (K0 : (0 < K)%Z) by (unfold K; lia).
+  assert (M0 : (0 < M)%Z) by (unfold M; lia).
+  rewrite <- (Zmod_div_mod K M) by (auto; exists (Z.of_N (2 ^ N.of_nat (n - k))); exact EM).
+  replace (K - X mod K)%Z with (0 - X mod K + 1 * K)%Z by lia.
+  rewrite Z_mod_plus_full, Zminus_mod_idemp_r.
+  rewrite EM. replace (Z.of_N (2 ^ N.of_nat (n - k)) * K - X)%Z with (0 - X + Z.of_N (2 ^ N.of_nat (n - k)) * K)%Z by lia.
+  rewrite Z_mod_plus_full. reflexivity.
+Qed.
+
+Theorem okm_new_idivider_r_le a b r :
+  (1 <= Nat.max (length a) (length b))%nat -> (length r <= Nat.max (length a) (length b))%nat ->
+  okm false (new_idivider a b [] r)
+      (fun _ e =>
+         let n := Nat.max (length a) (length b) in
+         let sa := N.testbit (valN e a) (N.of_nat (n - 1)) in
+         let sb := N.testbit (valN e b) (N.of_nat (n - 1)) in
+         let A := if sa then negN n (valN e a) else valN e a in
+         let B := if sb then negN n (valN e b) else valN e b in
+         valN e r = dr A B mod 2 ^ N.of_nat (length r)).
+Proof.
+  intros Hn Lr. eapply okm_ext; [intros s; apply idiv_split|].
+  eapply okm_bind_p; [apply (okp_idiv_prefix a b _ eq_refl Hn)|].
+  intros [[[a2 b2] neg4] z0] [La2 Lb2]. cbv beta. unfold idiv_suffix. cbn [length Nat.eqb].
+  eapply okm_weaken; [apply okm_new_udivider_r_le; lia|]. cbv beta.
+  intros _ e H (Hz & HA & HB & HN). cbv zeta. rewrite H, HA, HB. reflexivity.
+Qed.
+
+Theorem okm_new_idivider_q_le a b q :
+  (1 <= Nat.max (length a) (length b))%nat ->
+  (1 <= length q)%nat -> (length q <= Nat.max (length a) (length b))%nat ->
+  okm false (new_idivider a b q [])
+      (fun _ e =>
+         let n := Nat.max (length a) (length b) in
+         let sa := N.testbit (valN e a) (N.of_nat (n - 1)) in
+         let sb := N.testbit (valN e b) (N.of_nat (n - 1)) in
+         let A := if sa then negN n (valN e a) else valN e a in
+         let B := if sb then negN n (valN e b) else valN e b in
+         valN e q = (if xorb sa sb then negN n (dq A B n) else dq A B n) mod 2 ^ N.of_nat (length q)).
+Proof.
+  intros Hn Hq1 Lq. eapply okm_ext; [intros s; apply idiv_split|].
+  eapply okm_bind_p; [apply (okp_idiv_prefix a b _ eq_refl Hn)|].
+  intros [[[a2 b2] neg4] z0] [La2 Lb2]. cbv beta. unfold idiv_suffix.
+  replace (Nat.eqb (length q) 0) with false by (symmetry; apply Nat.eqb_neq; lia).
+  eapply okm_bind_p; [apply okp_fresh_n|]. intros q0 Lq0. cbv beta in Lq0 |- *.
+  eapply okm_bind; [apply okm_new_udivider_q_le; lia|]. intros u7. cbv beta.
+  eapply okm_bind_p; [apply okp_fresh_n|]. intros q10 Lq10. cbv beta in Lq10 |- *.
+  eapply okm_bind_p; [apply okp_new_subtractor_yao; cbn [length]; lia|]. intros q1 Lq1. cbv beta in Lq1 |- *.
+  eapply okm_weaken; [apply okm_new_mux; lia|]. cbv beta.
+  intros _ e Hq Hq1' _ Hdiv _ (Hz & HA & HB & HN). cbv zeta.
+  apply (zero_sub_val e z0 q0 q10) in Hq1'; auto; try lia.
+  assert (Bd : valN e a2 < 2 ^ N.of_nat (Nat.max (length a) (length b))) by (rewrite <- La2; apply valN_lt).
+  rewrite HA in Bd.
+  rewrite Hq, HN, Hq1', Hdiv, HA, HB, La2, Lb2, Nat.max_id, Lq0.
+  match goal with |- (if ?c then _ else _) = _ => destruct c end; [|reflexivity].
+  apply negN_mod; [lia|]. apply N.lt_le_incl, dq_lt. exact Bd.
 Qed.
 
 (* ---- structure: single assignment / defined before use ---- *)
@@ -355,17 +666,17 @@ Proof. intros H (a & s' & E & K). exists a, s'. rewrite H. auto. Qed.
 
 (* the sign handling writes only wires it allocates itself: every wire pending
    before is still pending (step s s' []) *)
-Lemma idiv_prefix_s s a b :
+Lemma idiv_prefix_s s a b n :
   gmw s = false -> wfst s -> Forall (defd s) a -> Forall (defd s) b ->
-  (1 <= length a)%nat -> length b = length a ->
+  n = Nat.max (length a) (length b) -> (1 <= n)%nat ->
   oks (idiv_prefix a b) s
       (fun p s' => let '(a2, b2, neg4, z0) := p in
          step s s' [] /\ Forall (defd s') a2 /\ Forall (defd s') b2 /\ defd s' neg4 /\ defd s' z0 /\
-         length a2 = length a /\ length b2 = length a).
+         length a2 = n /\ length b2 = n).
 Proof.
-  intros G W Fa Fb Ha Lb. unfold idiv_prefix.
+  intros G W Fa Fb En Hn. unfold idiv_prefix.
   sbind zero_pad_s. intros [a' b'] s1 W1 (S1 & Fa' & Fb' & La' & Lb'). cbn [fst snd] in *.
-  cbv beta iota zeta. rewrite Lb, Nat.max_id in La', Lb'.
+  cbv beta iota zeta. rewrite <- En in La', Lb'.
   sbind zero_s. intros z0 s2 W2 (S2 & Dz0). cbv beta.
   destruct (skipn_last1 a') as (ca & Eca & Ica); [lia|].
   destruct (skipn_last1 b') as (cb & Ecb & Icb); [lia|].
@@ -459,11 +770,11 @@ Qed.
 Lemma new_idivider_r_s s a b r :
   gmw s = false -> wfst s -> Forall (defd s) a -> Forall (defd s) b ->
   Forall (pend s) r -> NoDup r ->
-  (1 <= length a)%nat -> length b = length a -> length r = length a ->
+  (1 <= Nat.max (length a) (length b))%nat -> (length r <= Nat.max (length a) (length b))%nat ->
   oks (new_idivider a b [] r) s (fun _ s' => step s s' r /\ Forall (defd s') r).
 Proof.
-  intros G W Fa Fb Pr ND Ha Lb Lr. eapply oks_ext; [apply idiv_split|].
-  eapply oks_bind; [apply idiv_prefix_s; auto|].
+  intros G W Fa Fb Pr ND Hn Lr. eapply oks_ext; [apply idiv_split|].
+  eapply oks_bind; [apply (idiv_prefix_s s a b _ G W Fa Fb eq_refl Hn)|].
   intros [[[a2 b2] neg4] z0] s1 W1 (S1 & Fa2 & Fb2 & Dn & Dz & La2 & Lb2). cbv beta.
   unfold idiv_suffix. cbn [length Nat.eqb].
   eapply oks_conseq;
@@ -478,11 +789,12 @@ Qed.
 Lemma new_idivider_q_s s a b q :
   gmw s = false -> wfst s -> Forall (defd s) a -> Forall (defd s) b ->
   Forall (pend s) q -> NoDup q ->
-  (1 <= length a)%nat -> length b = length a -> length q = length a ->
+  (1 <= Nat.max (length a) (length b))%nat -> (1 <= length q)%nat ->
+  (length q <= Nat.max (length a) (length b))%nat ->
   oks (new_idivider a b q []) s (fun _ s' => step s s' q /\ Forall (defd s') q).
 Proof.
-  intros G W Fa Fb Pq ND Ha Lb Lq. eapply oks_ext; [apply idiv_split|].
-  eapply oks_bind; [apply idiv_prefix_s; auto|].
+  intros G W Fa Fb Pq ND Hn Hq1 Lq. eapply oks_ext; [apply idiv_split|].
+  eapply oks_bind; [apply (idiv_prefix_s s a b _ G W Fa Fb eq_refl Hn)|].
   intros [[[a2 b2] neg4] z0] s1 W1 (S1 & Fa2 & Fb2 & Dn & Dz & La2 & Lb2). cbv beta.
   unfold idiv_suffix.
   replace (Nat.eqb (length q) 0) with false by (symmetry; apply Nat.eqb_neq; lia).
